@@ -407,7 +407,7 @@ var oddRefs = []string{"", "#", "%zz", "http://[::1", "a b", "//", "HTTP://Host:
 	// characters that JSON has to escape, in the parts of a URL that net/url prints verbatim (query, opaque part)
 	`other.json?filter="a"#/definitions/x`, `models.json?rev=2","title":"injected`, `urn:schemas\thing`, `mailto:a"b@c`, `a.json?q=\u0041`}
 var jsonTypes = []string{"string", "number", "integer", "boolean", "array", "object", "null"}
-var statusCodes = []string{"200", "201", "204", "400", "404", "500", "100", "599"}
+var statusCodes = []string{"200", "201", "204", "400", "404", "500", "100", "599", "600", "701", "999"} // any three digits (^([0-9]{3})$ in the meta-schema)
 var xorderValues = []string{"", "0", "1", "1", "1.5", `"1"`, `"x"`, "-1", "1099511627776", "true"}
 
 const draft4 = "http://json-schema.org/draft-04/schema#"
@@ -495,6 +495,20 @@ func kindMinDocs(kind string) (docs []*jv, primary int) {
 	case "SecurityScheme":
 		for _, f := range securityFlavours {
 			docs = append(docs, mustJV(f))
+		}
+		return docs, 1
+	case "Paths":
+		// every name of the pools as a path key and as an extension key, and keys that hold the text of a pointer escape
+		// (a pointer token spells them "~00", "~01"), alone and next to the key a second unescaping would turn them into
+		docs = []*jv{baseDoc(kind)}
+		pi := `{"get":{"responses":{"200":{"description":"d"}}}}`
+		for _, n := range append(append([]string{}, plainNames...), escapeNames...) {
+			docs = append(docs, jObj(mem("/"+n, mustJV(pi))), jObj(mem("x-"+n, mustJV(`{"k":1}`))))
+		}
+		for _, pair := range [][2]string{{"a~1b", "a/b"}, {"v~0", "v~"}, {"~01", "~1"}, {"~00", "~0"}, {"p~0~1q", "p~/q"}} {
+			docs = append(docs, jObj(mem("/"+pair[0], mustJV(pi))),
+				jObj(mem("/"+pair[0], mustJV(pi)), mem("/"+pair[1], mustJV(`{"put":{"responses":{"204":{"description":"other"}}}}`))),
+				jObj(mem("x-"+pair[0], mustJV(`{"k":1}`)), mem("x-"+pair[1], mustJV(`{"k":2}`))))
 		}
 		return docs, 1
 	case "SecurityDefinitions":
@@ -1206,11 +1220,23 @@ func phase3Systematic(emit func(cdoc)) {
 			}
 			_ = kw
 		}
+		if kind == "Responses" {
+			// response names that parse as numbers without being three digits, or whose canonical rendering is shorter than
+			// their spelling: whatever the decoder makes of them, a second pass must not change it again
+			for _, n := range []string{"020", "007", "000", "+20", "-07", "-20", "20", "2000", "+200", "0200", "1e2", " 200"} {
+				emit(cdoc{kind: kind, doc: jObj(mem(n, mustJV(`{"description":"d"}`)), mem("default", mustJV(`{"description":"x"}`))), phase: 3, tags: []string{"phase3", "mutation:edge-name", "systematic", "status-spelling"}})
+			}
+		}
 		// member names at the edge of what the decoders test for ("x-" prefix, "$ref", "/" prefix, the empty name)
 		for _, n := range []string{"x", "X", "x-", "X-", "-", "", "$", "/", "$ref ", "xx"} {
 			emit(cdoc{kind: kind, doc: withMember(base, n, jNum("1")), phase: 3, tags: []string{"phase3", "mutation:edge-name", "systematic"}})
 		}
 		for _, kw := range kindTable[kind].kws {
+			if kw.special == "schema-url" { // the same spellings where a URL is expected ($schema is parsed, and printed back, as a URL)
+				for _, o := range oddRefs {
+					emit(cdoc{kind: kind, doc: withMember(base, kw.name, jStr(o)), phase: 3, tags: []string{"phase3", "mutation:schema-url", "systematic", "kw:" + kw.name}})
+				}
+			}
 			if kw.special == "ref" { // every odd spelling of a reference, on every kind that can hold one
 				for _, o := range oddRefs {
 					emit(cdoc{kind: kind, doc: withMember(base, kw.name, jStr(o)), phase: 3, tags: []string{"phase3", "mutation:ref", "systematic", "kw:" + kw.name}})
